@@ -81,6 +81,11 @@ impl<T> Receiver<T> {
 
 impl<T> Drop for Receiver<T> {
     fn drop(&mut self) {
+        // Execution has deadlocked, cleanup does not matter.
+        if !rt::execution(|execution| execution.threads.is_active()) {
+            return;
+        }
+
         // Drain the channel.
         while !self.object.is_empty() {
             self.recv().unwrap();
